@@ -486,7 +486,7 @@ func genQueryDoc(g *Gen, r *rand.Rand) *Node {
 
 func checkQueries(prop, tier string, seed int64) int {
 	rep := NewReport(prop, tier, seed)
-	rep.Rule = "documents: seeded random generator (any subset of the seven methods per path, optional ids incl. duplicates and none, document/operation consumes/produces/security incl. explicitly empty security, securityDefinitions present/absent, " +
+	rep.Rule = "documents: TLC-enumerated decision tables (MC_Queries: media types, security, pairs of methods/ids, parameter lists) + seeded random generator (any subset of the seven methods per path, optional ids incl. duplicates and none, document/operation consumes/produces/security incl. explicitly empty security, securityDefinitions present/absent, " +
 		"path-level and operation-level parameters inline or by $ref - valid, dangling, non-parameter - with (in,name) overlaps and x-go-name, documents without paths) + repository fixtures; every method spelling x every path (existing or not) and every id (known or not) is queried; " +
 		"non-trivial: (C14) at least one operation, (C15) at least one parameter query over a bad $ref; distinct by document hash"
 	rep.Assumptions = []string{"swag.ToGoName and strings.ToUpper supplied as relations", "projection (round-trip self-checked); TLC, Json module"}
@@ -518,6 +518,56 @@ func checkQueries(prop, tier string, seed int64) int {
 		}
 		cases = append(cases, c)
 	}
+	// decision tables enumerated by TLC (MC_Queries), replayed
+	mcStates, mcGen := 0, 0
+	famInfo := map[string]any{}
+	for fi, fam := range []string{"media", "security", "ops", "params"} {
+		run, lines, err := runMC("MC_Queries", map[string]string{"Family": `"` + fam + `"`, "Export": "TRUE"}, 10*time.Minute, 8)
+		if err != nil || run == nil || !run.OK {
+			t := ""
+			if run != nil {
+				t = "invariant " + run.InvViolated + "\n" + run.Tail
+			}
+			rep.HarnessErr = append(rep.HarnessErr, fmt.Sprintf("MC_Queries family %s: %v %s", fam, err, t))
+			continue
+		}
+		mcStates += run.Distinct
+		mcGen += run.Generated
+		famInfo[fam] = map[string]int{"distinct_states": run.Distinct, "documents_exported": run.Exported}
+		r := rand.New(rand.NewSource(seed*37 + int64(fi)))
+		r.Shuffle(len(lines), func(i, j int) { lines[i], lines[j] = lines[j], lines[i] })
+		limit := len(lines)
+		if tier != "thorough" && fam == "params" {
+			limit = 500
+		}
+		for i, l := range lines {
+			if i >= limit {
+				break
+			}
+			var ex struct {
+				Doc *Node `json:"doc"`
+			}
+			if e := json.Unmarshal([]byte(l), &ex); e != nil || ex.Doc == nil {
+				rep.HarnessErr = append(rep.HarnessErr, "MC_Queries export not parseable")
+				break
+			}
+			g := NewGen(seed*19+int64(i), GenOpts{PlainNames: i%2 == 0})
+			b := &Bundle{Docs: map[string]*Node{"root": ex.Doc}, Files: map[string]string{"root": "api/root.json"}}
+			bindPlaceholders(g, b.Docs)
+			c := &Case{Tid: fmt.Sprintf("s%s%d", fam[:1], i), Source: "tlc", Seed: seed, Bundle: b, Names: g.Names.ToConcrete, Note: "family=" + fam}
+			if err := c.Materialize(filepath.Join(scratch, "cases", c.Tid)); err != nil {
+				rep.HarnessErr = append(rep.HarnessErr, err.Error())
+				continue
+			}
+			if err := c.RoundTrip(); err != nil {
+				rep.HarnessErr = append(rep.HarnessErr, err.Error())
+				continue
+			}
+			cases = append(cases, c)
+		}
+	}
+	rep.Extra["exhaustive_model_run"] = map[string]any{"module": "MC_Queries", "families": famInfo, "distinct_states": mcStates,
+		"invariants": []string{"InvMedia", "InvSecurity", "InvParams"}}
 	for i, f := range fixtureFiles() {
 		if tier != "thorough" && i%3 != int(seed%3) {
 			continue
@@ -547,7 +597,7 @@ func checkQueries(prop, tier string, seed int64) int {
 		}
 		return rep.Finish()
 	}
-	rep.States, rep.Transitions = tl.Distinct, tl.Generated
+	rep.States, rep.Transitions = tl.Distinct+mcStates, tl.Generated+mcGen
 	diags := map[string][]string{}
 	for _, d := range tl.Diags {
 		tid, p, _, _ := diagShape(d)
